@@ -74,7 +74,7 @@ async fn get_streams(
 async fn create_stream(
     State(state): State<Arc<AppState>>,
     Extension(identity): Extension<Identity>,
-    Json(command): Json<CreateStream>,
+    Json(mut command): Json<CreateStream>,
 ) -> Result<Json<StreamDetails>, CustomError> {
     command.validate()?;
 
@@ -92,6 +92,8 @@ async fn create_stream(
                 command.stream_id
             )
         })?;
+    // The journal must record the ID that was assigned, replay cannot re-derive it.
+    command.stream_id = Some(stream.stream_id);
     let response = Json(mapper::map_stream(stream));
 
     let system = system.downgrade();
